@@ -747,6 +747,56 @@ func (r *c12Runner) exec(i int, op *c12Op) (ob c12Obs, cont bool) {
 			}
 		}
 		r.syncClient(&ob)
+	case "storm":
+		// many answers with unknown ids in one segment, then a reset, while the federated
+		// session sends requests of its own: the read pump and the client's goroutine
+		// compete for the locks of the FederationClient
+		if r.conn == nil {
+			ob.Note = "no connection: op skipped"
+			return ob, false
+		}
+		n := op.N
+		if n <= 0 {
+			n = 10
+		}
+		done := make(chan struct{})
+		go func() {
+			for i := 0; i < n; i++ {
+				r.client.send(map[string]interface{}{"id": "m", "type": "message", "message": map[string]interface{}{
+					"recipient": map[string]interface{}{"type": "room"}, "data": map[string]interface{}{"x": i}}})
+			}
+			close(done)
+		}()
+		var buf []byte
+		for i := 0; i < n; i++ {
+			buf = append(buf, c12RawFrame(1, []byte(fmt.Sprintf(`{"id":"storm-%d","type":"foo"}`, i)))...)
+		}
+		r.conn.wmu.Lock()
+		nc := r.conn.ws.UnderlyingConn()
+		nc.Write(buf)
+		if tc, ok := nc.(*net.TCPConn); ok {
+			tc.SetLinger(0)
+		}
+		nc.Close()
+		r.conn.wmu.Unlock()
+		r.conn = nil
+		<-done
+		deadline := time.Now().Add(r.dialWait())
+		for {
+			if r.waitDial(20 * time.Millisecond) {
+				break
+			}
+			if st, ok := c12ReadState(r.fc, r.sess, 50*time.Millisecond); ok && st.Closed {
+				break
+			}
+			if time.Now().After(deadline) {
+				ob.Responsive = false
+				ob.Note += "neither reconnected nor closed after the storm; "
+				break
+			}
+		}
+		r.syncClient(&ob)
+		ob.Client = []string{} // not compared
 	case "drop":
 		if r.conn == nil {
 			ob.Note = "no connection: op skipped"
@@ -825,7 +875,7 @@ func (r *c12Runner) exec(i int, op *c12Op) (ob c12Obs, cont bool) {
 	}
 	r.readState(&ob)
 	ob.Bystander = r.e.bystanderOk()
-	if r.c.Mode == 0 && !(ob.Responsive) {
+	if r.c.Mode != 1 && !(ob.Responsive) {
 		cont = false
 	}
 	if ob.State.Closed && r.conn == nil && r.held == nil {
